@@ -100,21 +100,33 @@ def outcome_of(api, fn):
     return o, v
 
 
+LIMIT_DELTA = [0]
+
+
 def call_with_headroom(fn, H, P):
     """Call fn() with only ~H Python frames of stack left, after P frames of
     padding recursion (so the same head-room is realised at different
     absolute recursion limits).  The interpreter's own recursion check
-    raises the real RecursionError."""
+    raises the real RecursionError.
+
+    Only the harness's own change of the limit is undone afterwards: if the
+    code under test leaves the interpreter's recursion limit different from
+    what it found, that difference is kept in force (as it would be in a
+    real process) and reported in LIMIT_DELTA[0]."""
     def pad(n):
         if n > 0:
             return pad(n - 1)
         old = sys.getrecursionlimit()
         d = depth_now()
-        sys.setrecursionlimit(d + H)
+        mine = d + H + (old - AMPLE if old > AMPLE else 0)
+        sys.setrecursionlimit(mine)
         try:
             return fn()
         finally:
-            sys.setrecursionlimit(old)
+            delta = sys.getrecursionlimit() - mine
+            LIMIT_DELTA[0] = delta
+            sys.setrecursionlimit(old + delta)
+    LIMIT_DELTA[0] = 0
     return pad(P)
 
 
